@@ -160,7 +160,8 @@ def string_callback_rule(rep, mod, cb, cur_off):
                 # a counter of the room left: decremented by one, and at least one before the decrement
                 if e[3] is not None and e[3].base == ('arg', 0) and e[3].off.is_const() and isinstance(e[4], Lin):
                     r = Lin.sym(('fld', e[3].off.c))
-                    if s.cons.entails_eq(e[4], r - 1) and (s.cons.entails_le(1, r) or not s.cons.entails_le(r, 0)):
+                    # (the counter is unsigned: 'not zero', whichever sign the executor's integers give it, is 'at least one')
+                    if s.cons.entails_eq(e[4], r - 1) and (s.cons.entails_le(1, r) or s.cons.entails_lt(r, 0)):
                         room_off = e[3].off.c
                         continue
                 good = False
